@@ -28,6 +28,9 @@ BUILD = {
     "schema.extended": "base = Rule(('a',), Value.truthy() | Value.falsy())\nsch = Schema([base])\nextra = Schema([Rule(('flag',), Value.equal_to(True), cast={str: valida.casting.cast_string_to_bool}), Rule(('ns', ListValue()), Value.is_instance(int), cast={str: int})])\nsch.add_schema(extra, DataPath('deep'))\nobjs = (base, extra, sch)",
     "schema.extended.edit": "base = Rule(('a',), Value.truthy() | Value.falsy())\nsch = Schema([base])\nsch.rules.append(Rule(('deep', 'flag'), Value.equal_to(True), cast={str: valida.casting.cast_string_to_bool}))\nobjs = (base, sch)",
     "rule.patharg": "ref = DataPath('a', 'b')\ncond = Value.equal_to(ref)\nrule = Rule(('l', 0), cond)\nobjs = (ref, cond, rule)",
+    "rule.patharg.in_list": "ref1 = DataPath('a', 'b')\nref2 = DataPath('n')\ncond = Value.in_([ref1, ref2, 0])\nrule = Rule(('l', 0), cond)\nobjs = (ref1, ref2, cond, rule)",
+    "rule.patharg.in_map": "ref1 = DataPath('a', 'b')\ncond = Value.equal_to({'b': ref1}) | Value.items_contain(b=DataPath(1))\nrule = Rule(('l', 1), cond)\nobjs = (ref1, cond, rule)",
+    "schema.patharg.nested": "c1 = Value.in_([DataPath('a', 'b'), DataPath('n'), 0])\nc2 = Value.equal_to({'b': DataPath(1)})\nr1 = Rule(('l', 0), c1)\nr2 = Rule(('l', 1), c2)\nsch = Schema([r1, r2])\nobjs = (c1, c2, r1, r2, sch)",
     "schema": "c1 = Value.greater_than(t)\nc2 = Value.is_instance(dict)\np1 = DataPath('a', 'c', ListValue())\nr1 = Rule(p1, c1)\nr2 = Rule(('a',), c2)\nr3 = Rule(('l', ListValue()), c1)\nsch = Schema([r1, r2, r3])\nobjs = (c1, c2, p1, r1, r2, r3, sch)",
     "schema.cast": "c1 = Value.equal_to(t)\nc2 = Value.equal_to(True)\nr1 = Rule(('n',), c1, cast={str: int})\nr2 = Rule(('s',), c2, cast={str: valida.casting.cast_string_to_bool})\nr3 = Rule((MapValue(),), Value.truthy() | Value.is_instance(bool))\nsch = Schema([r1, r2, r3])\nobjs = (c1, c2, r1, r2, r3, sch)",
 }
@@ -50,6 +53,9 @@ OPS = {
     "schema.extended": ["objs[-1].validate(doc)"],
     "schema.extended.edit": ["objs[-1].validate(doc)"],
     "rule.patharg": ["objs[-1].test(doc)"],
+    "rule.patharg.in_list": ["objs[-1].test(doc)"],
+    "rule.patharg.in_map": ["objs[-1].test(doc)"],
+    "schema.patharg.nested": ["objs[-1].validate(doc)"],
     "schema": ["objs[-1].validate(doc)", "objs[-1].validate(Data(doc))"],
     "schema.cast": ["objs[-1].validate(doc)"],
 }
@@ -163,6 +169,36 @@ def cases(ctx):
                         [f"make()[-1].filter({DOC}).result", f"make()[-1].filter(({DOC})['l']).result", f"make()[-1].filter({DOC}).result", f"make()[0].filter({DOC}).result"], L, "map_list_map"))
     out.append(seq_case("rule.patharg", [f"{ST}(objs[-1].test(d1))", f"{ST}(objs[-1].test(d2))", "objs[0].get_data(d1)"],
                         [f"{ST}(make()[-1].test({DOC}))", f"{ST}(make()[-1].test({DOC2}))", f"make()[0].get_data({DOC})"], L, "t1t2g1"))
+    out.append(seq_case("rule.patharg.in_list", [f"{ST}(objs[-1].test(d1))", f"{ST}(objs[-1].test(d2))", f"{ST}(objs[-1].test(d1))", "repr(objs[2])"],
+                        [f"{ST}(make()[-1].test({DOC}))", f"{ST}(make()[-1].test({DOC2}))", f"{ST}(make()[-1].test({DOC}))", "repr(make()[2])"], L, "t1t2t1"))
+    out.append(seq_case("schema.patharg.nested", [f"{SV}(objs[-1].validate(d2))", f"{SV}(objs[-1].validate(d1))", "objs[-1] == make()[-1]", "tx(objs[0].to_json_like())"],
+                        [f"{SV}(make()[-1].validate({DOC2}))", f"{SV}(make()[-1].validate({DOC}))", "True", "tx(make()[0].to_json_like())"], L, "v2v1"))
+    # documents whose nested containers are instances of dict / list subclasses (OrderedDict, defaultdict, a user subclass),
+    # as YAML / config loaders hand them out: casts are written to a private copy of those too
+    body = """
+import collections
+class Steps(list):
+    pass
+doc = {'opts': collections.OrderedDict([('verbose', 'true'), ('retries', '3'), ('x', u1)]),
+       'limits': collections.defaultdict(dict, {'cpu': {'count': '4'}}), 'steps': Steps(['1', '2', u1]), 'plain': {'n': '7'}}
+r1 = Rule(('opts', 'retries'), Value.equal_to(t), cast={str: int})
+r2 = Rule(('limits', 'cpu', 'count'), Value.greater_than(t), cast={str: int})
+r3 = Rule(('steps', ListValue()), Value.is_instance(int), cast={str: int})
+r4 = Rule(('opts', 'verbose'), Value.equal_to(True), cast={str: valida.casting.cast_string_to_bool})
+r5 = Rule(('plain', 'n'), Value.dtype.equal_to(str))
+sch = Schema([r1, r2, r3, r4, r5])
+dsnap, dids = tx(doc), docids(doc)
+v = sch.validate(doc)
+ok = note("Schema.validate left the caller's document type-exactly unchanged", tx(doc) == dsnap) and note('containers not rebound', docids(doc) == dids)
+ok = ok and note('cast data shares no container with the document', disjoint_containers(v.cast_data, doc))
+for r in (r1, r2, r3, r4):
+    res = r.test(doc)
+    ok = ok and note("Rule.test left the caller's document type-exactly unchanged", tx(doc) == dsnap) and note('containers not rebound', docids(doc) == dids)
+ok = ok and same('a later rule sees the uncast values', summarize_test(r5.test(doc))[:3], (True, True, 0))
+ok = ok and same('same verdict again', (v.is_valid, v.num_failures), (sch.validate(doc).is_valid, sch.validate(doc).num_failures))
+return ok
+"""
+    out.append(mk_case("c08.step.container_subclasses", [("t", "int"), ("u1", UN)], body, pre=[f"BU({L}, t, u1)"], stubs=["sym_repr"]))
     # one condition object shared by two rules and a stand-alone filter; one path shared by two rules
     body = f"""
 def make():
